@@ -789,6 +789,13 @@ fn gen_xh(rng: &mut Rng) -> (f64, f64) {
         _ => rng.r(-3.0, 3.0),
     };
     let h = if rng.chance(0.15) { *rng.pick(&[1e-3, 0.01, 0.1, 0.125, 0.25, 0.5]) } else { rng.log10(-3.0, -0.30103) };
+    if rng.chance(0.04) {
+        // x a hair off a multiple of h: one stencil abscissa is then tiny (down to 1e-16 h) but not zero,
+        // and it is that abscissa, not 0, at which the function has to be sampled
+        let m = *rng.pick(&[1.0, 2.0, -1.0, -2.0]);
+        let delta = rng.sign() * rng.log10(-16.0, -7.0);
+        return (m * h * (1.0 + delta), h);
+    }
     (x, h)
 }
 
